@@ -494,3 +494,15 @@ def containers(ctx: Any) -> List[Ob]:
 
 
 RULES.append(containers)
+
+
+@rule('C15.ASSEMBLED', 'N', expect_min=2)
+def assembled(ctx: Any) -> List[Ob]:
+    """The assembled-query handler indexes its first packet; it is entered from a timer with only the
+    deferred packets, so the invariant `pending timer => non-empty deferred list` must hold."""
+    from .c12 import deferred_timer_discipline
+
+    return deferred_timer_discipline(ctx, 'C15.ASSEMBLED')
+
+
+RULES.append(assembled)
